@@ -2,6 +2,8 @@
 catalogue equations in documented source form, round trip render -> parse -> random interpretation."""
 from __future__ import annotations
 
+from vp import guard as _guard
+
 import functools
 import traceback
 from typing import Any, Callable
@@ -404,8 +406,8 @@ def judge_generated(case: dict[str, Any], mode: str, render: Any, parse: Any, we
     """Hang guard around one generated case: SymPy evaluates e.g. cos(6.02e23**5) numerically at construction, which
     needs pi to ~1e120 digits. Expiry == discarded (counted), never a verdict."""
     import signal
-    old = signal.signal(signal.SIGALRM, _alarm)
-    signal.alarm(6)
+    old = _guard.install(_alarm)
+    _guard.arm(6)
     try:
         return _judge_generated(case, mode, render, parse, wellformed)
     except _Hang:
